@@ -168,9 +168,10 @@ class Request(HTTPConnection):
                 return json.loads(
                     self.body.decode(self.content_type.options.get("charset", "utf8"))
                 )
-            except (ValueError, LookupError) as exc:
+            except (ValueError, LookupError, RecursionError) as exc:
                 # JSONDecodeError and UnicodeDecodeError are ValueErrors, so is the
-                # refusal of over-long numbers; LookupError is an unknown charset
+                # refusal of over-long numbers; LookupError is an unknown charset;
+                # RecursionError is nesting deeper than the interpreter can follow
                 raise MalformedJSON(str(exc)) from None
 
         raise UnsupportedMediaType("application/json")
